@@ -630,6 +630,8 @@ func runC10(c *Ctx) {
 		r.Traces++
 	}
 	c.run("ststlsclose", map[string]string{"scenario": "TLS, handler holds the loop, ACK with port queued, Close, release"})
+	c.run("stsshared", map[string]string{"scenario": "a default client negotiates sts, then DisableSTS and SSL clients in the same process"})
+	r.Traces++
 	r.Traces++
 	r.Exhaustive = true
 	for _, port := range []string{"6697", "-1"} {
@@ -678,4 +680,68 @@ func cfgPort(in map[string]string) int {
 		return 0
 	}
 	return 6667
+}
+
+// "with DisableSTS or configured SSL the policy is neither requested nor acted on" — also when ANOTHER client of the same process
+// (default configuration) has negotiated with a server that advertises sts before: clients share nothing.
+func init() {
+	runners["stsshared"] = func(c *Ctx, in map[string]string) {
+		hin := hexIn(in)
+		req := func(cfg girc.Config) (string, bool) {
+			cl := girc.New(cfg)
+			cli, srv := net.Pipe()
+			ret := make(chan error, 1)
+			go func() { ret <- cl.MockConnect(cli) }()
+			rd := bufio.NewReader(srv)
+			defer func() {
+				cl.Close()
+				srv.Close()
+				select {
+				case <-ret:
+				case <-time.After(5 * time.Second):
+				}
+			}()
+			for {
+				srv.SetReadDeadline(time.Now().Add(3 * time.Second))
+				l, err := rd.ReadString('\n')
+				if err != nil {
+					return "", false
+				}
+				l = strings.TrimRight(l, "\r\n")
+				switch {
+				case strings.HasPrefix(l, "CAP LS"):
+					srv.SetWriteDeadline(time.Now().Add(2 * time.Second))
+					srv.Write([]byte(":srv CAP * LS :multi-prefix sts=port=6697,duration=100 away-notify\r\n"))
+				case strings.HasPrefix(l, "CAP REQ"), l == "CAP END":
+					return l, true
+				}
+			}
+		}
+		base := girc.Config{Server: "irc.example.org", Port: 6667, Nick: "me", User: "me"}
+		first, ok1 := req(base)
+		if !ok1 || !strings.Contains(" "+strings.TrimPrefix(first, "CAP REQ :")+" ", " sts ") {
+			c.R.Mismatch("sts.shared_setup", hin, first, "the default client requests sts")
+			return
+		}
+		for _, v := range []string{"nosts", "ssl"} {
+			cfg := base
+			cfg.Nick = "other"
+			if v == "nosts" {
+				cfg.DisableSTS = true
+			} else {
+				cfg.SSL = true
+				cfg.TLSConfig = &tls.Config{InsecureSkipVerify: true}
+			}
+			l, ok := req(cfg)
+			if !ok {
+				c.R.Mismatch("sts.shared_session", hin, v+": no request line", "")
+				continue
+			}
+			if strings.Contains(" "+strings.TrimPrefix(l, "CAP REQ :")+" ", " sts ") {
+				c.R.Violation("sts.requested_despite_config", hin, v+": "+l, "a request without sts",
+					"a client configured with DisableSTS / SSL requested the sts capability after another client of the process had negotiated it")
+			}
+		}
+		c.R.Count("stsshared", true, "two-clients-one-process")
+	}
 }
